@@ -6,6 +6,7 @@ import (
 	"sort"
 	"strings"
 
+	"github.com/go-openapi/validate"
 	"github.com/go-openapi/validate/verifrt"
 
 	"verif/harness/gen"
@@ -116,6 +117,12 @@ func exploreHistory(ops []Op, exploreFrom, bound int, rep *hx.Report, sets *hx.S
 	}
 	check := func(policy string, prefix []int, outs []hx.Outcome) bool {
 		rep.Inc("executions", 1)
+		// invariant of every reached state: the shared "valid" result the validators hand out instead
+		// of a fresh one is never modified and never pooled
+		if d := validate.VerifSentinelState(); d != "" {
+			report(policy, prefix, len(ops)-1, "a modified shared sentinel result (emptyResult: "+d+"): every later validation that returns or merges it is affected")
+			return false
+		}
 		for i := range ops {
 			sets.Add("outcomes", outs[i].Key())
 			if d := outcomeDiff(outs[i], want[i]); d != "" {
@@ -340,6 +347,9 @@ func c04sigma(withSpec bool) []Op {
 		{Kind: "param", Def: c04params[5], Val: `nil`},
 		{Kind: "header", Def: c04headers[3], Val: `[]string:aa|bb`},
 		{Kind: "header", Def: c04headers[0], Val: `int32:1`},
+		// degenerate arguments: no schema, and a schema-less validator object
+		{Kind: "against", Def: nilSchema, Val: `1`},
+		{Kind: "recyc", Def: nilSchema, Val: `{"a":1}`, Root: "data"},
 	}
 	if withSpec {
 		ops = append(ops, Op{Kind: "spec", Def: c04specValid, Val: ""}, Op{Kind: "spec", Def: c04specInvalid, Val: "continue"})
